@@ -66,6 +66,12 @@ struct Call {
 
 fn arg_value(c: &Call, a: &[Value]) -> Value {
     // indices beyond the look-alike pool denote "the integer <index>" (used by the long histories)
+    if c.arg >= 1_000_000 {
+        // "random argument number n": a deterministic pseudo-random value of a pseudo-random type
+        let mut r = Rng::new(c.arg as u64, "c11-arg", 0);
+        let t = crate::pools::TYPES[r.below(9)];
+        return crate::pools::random_value(&mut r, t);
+    }
     a.get(c.arg).cloned().unwrap_or(Value::Int(c.arg as i128))
 }
 
@@ -238,7 +244,7 @@ fn random(ctx: &mut Ctx, n: usize) {
         let len = 1 + rng.below(12);
         // few distinct arguments per history so that repeats are common
         let k = 1 + rng.below(4);
-        let local: Vec<usize> = (0..k).map(|_| rng.below(a.len())).collect();
+        let local: Vec<usize> = (0..k).map(|_| if rng.chance(1, 4) { 1_000_000 + rng.below(1_000_000) } else { rng.below(a.len()) }).collect();
         let calls: Vec<Call> = (0..len)
             .map(|_| Call { func: fns[rng.below(fns.len())], arg: local[rng.below(k)], inner: if rng.chance(1, 6) { Some(fns[rng.below(4)]) } else { None } })
             .collect();
